@@ -2,6 +2,7 @@
    which the faithful builder model violates the property while the ideal model satisfies it (closed by vm_compute).
    The same inputs are in corpus/C12 and are replayed on the implementation on every run. *)
 From TL Require Import Lib.Base Lib.GenTypes Model.LocTypes Gen.LocGen Model.Loc Model.LocRun Actual.LocActual.
+From TL Require Import Model.LocLazyTypes Gen.LocLazyGen Model.LocLazy.
 
 Definition only (i : nat) : lquirks :=
   Build_lquirks (i =? 0) (i =? 1) (i =? 2) (i =? 3) (i =? 4).
@@ -34,6 +35,12 @@ Definition w_arrow : lfile := ["const g ="; "  (a) => {"; "    if (a) { if (a) {
 Theorem C12_ts_arrow_node_start_refuted : refutes 1 w_arrow (K "nesting.ts" "g" 0 6 1 2).
 Proof. vm_compute. repeat split; reflexivity. Qed.
 
+(* the same layout seen by the CQS rule (it takes its function nodes from the same extractor): `Function 'g' violates CQS`
+   is reported at line 2 *)
+Definition w_arrow_cqs : lfile := ["const g ="; "  (id) => {"; "    const data = load(id);"; "    save(data);"; "    return data;"; "  };"].
+Theorem C12_ts_arrow_node_start_cqs_refuted : refutes 1 w_arrow_cqs (K "cqs.ts" "g" 0 6 1 2).
+Proof. vm_compute. repeat split; reflexivity. Qed.
+
 (* console / .log( on two lines *)
 Definition w_console : lfile := ["function f() {"; "  console"; "    .log(1);"; "}"].
 Theorem C12_ts_console_chain_start_refuted : refutes 2 w_console (K "print.ts" "log" 2 5 1 2).
@@ -55,3 +62,18 @@ Theorem C12_judge_attributes_chain :
   judge loc_actual w_chain [K "unwrap" "" 3 9 1 12] [R "unwrap" "" 2 12 ["let x = foo"] [] true]
   = [[false; true; true; false; true; true; true; true; false]].
 Proof. vm_compute. reflexivity. Qed.
+
+(* lazy-ignores numbers lines with str.splitlines(): after a form feed (a page break at the end of a comment line) the
+   directive of file line 2 is reported at line 3 - beyond the end of the two-line file; with the file's own lines (flag
+   off) it is reported at line 2, column 8 (1-based), where `# noqa` stands *)
+Definition w_lazy_text : string :=
+  bytes_to_string [35;32;112;97;103;101;12;10; 120;32;61;32;49;32;32;35;32;110;111;113;97;10].   (* "# page" FF LF "x = 1  # noqa" LF *)
+Definition w_lazy_find : string -> list hit := table_find [("x = 1  # noqa", [(7, "# noqa")])].
+Theorem C12_lazy_splitlines_numbering_refuted :
+  lines_of w_lazy_text = [bytes_to_string [35;32;112;97;103;101;12]; "x = 1  # noqa"]
+  /\ lazy_scan true w_lazy_find w_lazy_text = [(3, 8, "# noqa")]
+  /\ forallb (lrep_ok (lines_of w_lazy_text)) (lazy_scan true w_lazy_find w_lazy_text) = false
+  /\ lazy_scan false w_lazy_find w_lazy_text = [(2, 8, "# noqa")]
+  /\ forallb (lrep_ok (lines_of w_lazy_text)) (lazy_scan false w_lazy_find w_lazy_text) = true
+  /\ only_lf w_lazy_text = false.
+Proof. vm_compute. repeat split; reflexivity. Qed.
